@@ -22,7 +22,9 @@ theorem protoSide_loop (s : TLoop) (l : TLabel) (hl : l.protoSide = true) (hc : 
   | yamuxEof => cases hl
   | yamuxErr => cases hl
   | negOk k p => cases hl
+  | negOkFb k p f => cases hl
   | negFail k => cases hl
+  | yamuxOpened k => cases hl
   | takeCmd => cases hl
   | idleExit => cases hl
   | recv i =>
